@@ -466,7 +466,7 @@ def delta_sides(e, side_re):
 _POOL_OF_RECV = re.compile(r"(?:^|::)(\w+?)_pool_mut\(")
 
 
-def pool_effects(fn, path):
+def pool_effects(fn, path, expand=True, no_expand_re=None):
     """Token-ledger effects executed on the path, in order: list of dict(pool, side=E, amount=E, mult=+1|-1, cs, why).
     Recognised primitives (bodies checked by the C08 rule `conserve:primitive:*`):
       BaseMarketMutExt::apply_delta(m, side, d)                        liquidity[side] += d
@@ -474,33 +474,31 @@ def pool_effects(fn, path):
       PoolExt::apply_delta_amount(<x>_pool_mut(..)?, side, d)          <x>[side] += d
       SwapMarketMutExt::apply_swap_impact_value_with_cap(m, side, price, usd) -> r
                                                                        swap_impact[side] -= r if usd > 0, += r if usd < 0
-    Unknown sign / receiver -> entry with pool=None (callers must fail closed)."""
-    ev = path["ev"]
+    Calls to private same-file helpers are expanded (see `events`), so the primitives are found whether or not a helper
+    sits in between.  Unknown sign / receiver -> entry with pool=None (callers must fail closed)."""
     out = []
-    for c in path["calls"]:
-        sh = c.short
+    evs = events(fn, path, no_expand_re=no_expand_re) if expand else [
+        {"short": c.short, "args": path["ev"].call_args(c), "value": path["ev"].call_value(c), "cs": c, "inner": c, "conds": []} for c in path["calls"]]
+    for e in evs:
+        sh, a, c = e["short"], e["args"], e["cs"]
         if sh == "BaseMarketMutExt::apply_delta":
-            a = ev.call_args(c)
             out.append({"pool": "liquidity", "side": a[1], "amount": a[2], "mult": 1, "cs": c})
         elif sh == "BaseMarketMutExt::apply_delta_to_claimable_fee_pool":
-            a = ev.call_args(c)
             out.append({"pool": "claimable_fee", "side": a[1], "amount": a[2], "mult": 1, "cs": c})
         elif sh == "PoolExt::apply_delta_amount":
-            a = ev.call_args(c)
             m = _POOL_OF_RECV.search(str(a[0]))
             out.append({"pool": m.group(1) if m else None, "side": a[1], "amount": a[2], "mult": 1, "cs": c, "recv": a[0]})
         elif sh == "SwapMarketMutExt::apply_swap_impact_value_with_cap":
-            a = ev.call_args(c)
             usd = str(a[3])
             mult = None
-            for cond, lab, ty in path["conds"]:
+            for cond, lab, ty in list(path["conds"]) + list(e["conds"]):
                 if ty == "bool" and cond.k == "call" and len(cond.a[1]) == 1 and str(cond.a[1][0]) == usd:
                     taken = isinstance(lab, tuple) or lab != 0
                     if cond.a[0] == "Signed::is_positive" and taken:
                         mult = -1
                     if cond.a[0] == "Signed::is_negative" and taken:
                         mult = 1
-            out.append({"pool": "swap_impact" if mult is not None else None, "side": a[1], "amount": ev.call_value(c), "mult": mult or 1, "cs": c})
+            out.append({"pool": "swap_impact" if mult is not None else None, "side": a[1], "amount": e["value"], "mult": mult or 1, "cs": c})
     return out
 
 
@@ -639,3 +637,164 @@ def sym_lin(prog, e, subst=None, choose=None, inline_re=r"^gmsol_model::params::
                 if len(vals) == 1:
                     return vals[0]
     return Lin({_render(e, {n: v for n, v in subst.items() if isinstance(v, str)}): 1})
+
+
+# ------------------------------------------------------------------ interprocedural view over PRIVATE helpers
+# A private helper (visibility Restricted, same source file) is not a stable anchor: extracting or inlining one is a
+# behaviour-preserving refactor.  `events` flattens the calls executed on a path, expanding calls to such helpers by
+# substituting the caller's argument provenance for the helper's parameters, so rules see the same primitives with the
+# same operands whether or not a helper sits in between.
+
+
+def subst_params(e, mapping):
+    """Rebuild expression e with parameter nodes replaced according to mapping {param name: E}."""
+    k, a = e.k, e.a
+    sub = lambda x: subst_params(x, mapping)
+    if k == "param":
+        return mapping.get(a[1], e)
+    if k in ("field", "variant", "cast"):
+        return E(k, sub(a[0]), a[1])
+    if k == "index":
+        return E(k, sub(a[0]), sub(a[1]) if isinstance(a[1], E) else a[1])
+    if k == "call":
+        return E("call", a[0], tuple(sub(x) for x in a[1]), *a[2:])
+    if k in ("try", "discr", "len", "trybranch"):
+        return E(k, sub(a[0]))
+    if k == "bin":
+        return E(k, a[0], sub(a[1]), sub(a[2]))
+    if k == "un":
+        return E(k, a[0], sub(a[1]))
+    if k == "agg":
+        return E(k, a[0], tuple((n, sub(v)) for n, v in a[1]))
+    if k == "phi":
+        return E(k, tuple(sub(x) for x in a[0]))
+    if k == "closure":
+        return E(k, a[0], tuple(sub(x) for x in a[1]), *a[2:])
+    return e
+
+
+def is_private_helper(caller, callee):
+    return callee is not None and callee.crate == caller.crate and str(callee.vis).startswith("Restricted") and \
+        callee.file == caller.file and "{closure" not in callee.id and callee.id != caller.id
+
+
+def events(fn, path, expand_re=None, no_expand_re=None, _depth=0, _mapping=None, _outer=None):
+    """Calls executed on `path`, in order, with private same-file helpers expanded (recursively, depth <= 3).
+    Each event: dict(short, args=[E], value=E, cs=<call site in the TOP-LEVEL function>, inner=<actual call site>,
+    depth, conds=[(E, label, ty)] of the helper path it came from).  A helper is expanded only if all its success
+    paths yield the same event signature; otherwise it stays a single opaque event (rules then fail closed if they
+    needed its contents)."""
+    prog = fn.prog
+    ev = path["ev"]
+    out = []
+    for c in path["calls"]:
+        args = ev.call_args(c)
+        val = ev.call_value(c)
+        if _mapping is not None:
+            args = [subst_params(a, _mapping) for a in args]
+            val = subst_params(val, _mapping)
+        top = _outer or c
+        rec = {"short": c.short, "args": args, "value": val, "cs": top, "inner": c, "depth": _depth, "conds": []}
+        callee = None
+        for g in prog.callees(c):
+            callee = g
+            break
+        can = _depth < 3 and callee is not None and len(prog.callees(c)) == 1 and is_private_helper(fn, callee) and \
+            (no_expand_re is None or not re.search(no_expand_re, callee.id)) and (expand_re is None or re.search(expand_re, callee.id))
+        if can:
+            try:
+                cps = success_paths(callee, kinds=("ok", "unknown"), max_paths=64)
+            except RuntimeError:
+                cps = []
+            mapping = {}
+            for i in range(min(callee.arg_count, len(args))):
+                pn = callee.locals[i + 1][1]
+                if pn:
+                    mapping[pn] = args[i]
+            alts = []
+            for cp in cps:
+                sub = events(callee, cp, expand_re, no_expand_re, _depth + 1, mapping, top)
+                cc = [(subst_params(x, mapping), l, t) for x, l, t in cp["conds"]]
+                for s_ in sub:
+                    s_["conds"] = s_["conds"] + cc
+                sig = [(s_["short"], tuple(str(a) for a in s_["args"])) for s_ in sub]
+                if sig not in [x[0] for x in alts]:
+                    alts.append((sig, sub))
+            if len(alts) == 1:
+                rec["expanded"] = callee.id
+                rets = []
+                for cp in cps:
+                    r = subst_params(cp["ret"], mapping)
+                    if str(r) not in [str(x) for x in rets]:
+                        rets.append(r)
+                if len(rets) == 1:
+                    rec["ret"] = rets[0]          # the helper's result in the caller's terms (see inline_helper_values)
+                out.append(rec)
+                out.extend(alts[0][1])
+                continue
+        out.append(rec)
+    return out
+
+
+def deep_calls(fn, path, short_re, **kw):
+    return [e for e in events(fn, path, **kw) if re.search(short_re, e["short"])]
+
+
+def chain_root(x):
+    """Strip `?`, field projections and ok_or/map_err wrappers: (root E, projection string)."""
+    proj = ""
+    m = x
+    while True:
+        if m.k == "try":
+            m = m.a[0]
+        elif m.k == "field":
+            proj = "." + m.a[1] + proj
+            m = m.a[0]
+        elif m.k == "call" and m.a[0] in ("Option::ok_or", "Result::map_err") and m.a[1]:
+            m = m.a[1][0]
+        else:
+            return m, proj
+
+
+def inline_helper_values(e, evs):
+    """Replace, inside expression e, the opaque result of every expanded private helper call (an event with 'ret') by the
+    helper's own result expression in the caller's terms — so a value computed in a helper and the same value computed
+    inline have the same provenance."""
+    byid = {}
+    for ev_ in evs:
+        if "ret" in ev_:
+            byid[id(ev_["inner"])] = ev_["ret"]
+    if not byid:
+        return e
+
+    def sub(x):
+        k, a = x.k, x.a
+        if k == "call" and len(a) > 2 and id(a[2]) in byid:
+            return sub(byid[id(a[2])])
+        if k in ("field", "variant", "cast"):
+            return x.__class__(k, sub(a[0]), a[1]) if k != "field" else _proj_field(sub(a[0]), a[1])
+        if k == "index":
+            return E(k, sub(a[0]), sub(a[1]) if isinstance(a[1], E) else a[1])
+        if k == "call":
+            return E("call", a[0], tuple(sub(y) for y in a[1]), *a[2:])
+        if k in ("try", "discr", "len", "trybranch"):
+            inner = sub(a[0])
+            if k == "try" and inner.k == "agg" and (inner.a[0].endswith("::Ok") or inner.a[0].endswith("::Some")) and len(inner.a[1]) == 1:
+                return inner.a[1][0][1]          # Ok(v)? == v
+            return E(k, inner)
+        if k == "bin":
+            return E(k, a[0], sub(a[1]), sub(a[2]))
+        if k == "un":
+            return E(k, a[0], sub(a[1]))
+        if k == "agg":
+            return E(k, a[0], tuple((n, sub(v)) for n, v in a[1]))
+        return x
+    return sub(e)
+
+
+def _proj_field(base, name):
+    if base.k == "agg":
+        for n, v in base.a[1]:
+            if n == name:
+                return v
+    return E("field", base, name)
